@@ -818,6 +818,31 @@ def m_tile( ctx ):
     return res
 
 
+def _inline_helpers( src, fn, e, depth=0 ):
+    """calls of a one-expression helper ( `def f( x ): [docstring]; return <expr>` at module level or nested in fn ) replaced by that expression"""
+    helpers = {}
+    for d in list( src.tree.body ) + [ n for n in ast.walk( fn ) if n is not fn ]:
+        if isinstance( d, ast.FunctionDef ) and not d.decorator_list and not d.args.vararg and not d.args.kwarg and not d.args.kwonlyargs:
+            body = [ b for b in d.body if not ( isinstance( b, ast.Expr ) and isinstance( b.value, ast.Constant ) and isinstance( b.value.value, str )) ]
+            if len( body ) == 1 and isinstance( body[0], ast.Return ) and body[0].value is not None:
+                helpers[d.name] = ( [ a.arg for a in d.args.args ], body[0].value )
+    class Inl( ast.NodeTransformer ):
+        def visit_Call( self, n ):
+            self.generic_visit( n )
+            if isinstance( n.func, ast.Name ) and n.func.id in helpers and not n.keywords and len( n.args ) == len( helpers[n.func.id][0] ):
+                ps, ex = helpers[n.func.id]
+                amap = dict( zip( ps, n.args ))
+                class Sub( ast.NodeTransformer ):
+                    def visit_Name( self, m ):
+                        return ast.parse( ast.unparse( amap[m.id] ), mode='eval' ).body if m.id in amap else m
+                return Sub().visit( ast.parse( ast.unparse( ex ), mode='eval' ).body )
+            return n
+    out = Inl().visit( ast.parse( ast.unparse( e ), mode='eval' ).body )
+    if depth < 2 and any( isinstance( c, ast.Call ) and isinstance( c.func, ast.Name ) and c.func.id in helpers for c in ast.walk( out )):
+        return _inline_helpers( src, fn, out, depth + 1 )
+    return ast.fix_missing_locations( out )
+
+
 def _merge_branch( fn, length ):
     """the merge branch of merge(): the If whose body ends with `continue` and stores the running length ( an `if not count: continue`
     that skips an empty range is not it )"""
@@ -977,20 +1002,28 @@ def m_bank( ctx ):
     else:
         res.bad( src, fn, 'merge', 'ranges must be sorted before the sweep' )
     B, L, A, C = _merge_roles( fn )
-    t = _merge_branch( fn, L ).test
+    t0 = _merge_branch( fn, L ).test
+    t = _inline_helpers( src, fn, t0 )
     # ---- the merge condition, decided as a table: the test is evaluated for every cell of a grid of ( running range, next start, reach ) and
     # compared with what the property demands of a sweep over sorted ranges:
     #   the next range begins INSIDE the running one          -> merge, whatever the 10000-block ( else the output overlaps / is unsorted )
     #   same 10000-block, gap below the reach ( at least 1 )  -> merge
     #   same block, gap of reach or more                      -> no merge ( registers farther than reach from any request would be read )
-    #   another block, no overlap                             -> no merge ( ranges of different register kinds )
+    #   another register bank, no overlap                     -> no merge ( another 10000-block of the same bank: left open )
     RP = [ a_.arg for a_ in fn.args.args ]
     RCH = 'reach' if 'reach' in RP else None
     if RCH is None:
         raise AnalysisError( 'merge: reach parameter not found' )
     cells = bad_cells = 0
     first_bad = None
-    for base_ in ( 1, 40001, 49990, 329996 ):
+    def bank_( a ):
+        # the register banks of the Modbus address conventions cpppo uses ( shatter's limits, the poller's read functions )
+        for lo, hi, nm in (( 1, 9999, 'coil' ), ( 10001, 19999, 'status' ), ( 30001, 39999, 'input' ), ( 40001, 99999, 'holding' ),
+                           ( 100001, 165536, 'coil6' ), ( 300001, 365536, 'input6' ), ( 400001, 465536, 'holding6' )):
+            if lo <= a <= hi:
+                return nm
+        return ( 'none', a // 10000 )
+    for base_ in ( 1, 9990, 39990, 40001, 49990, 99990, 329996 ):
         for len_ in ( 1, 5, 20 ):
             for rch_ in ( 1, 5, 100, None, 0 ):
                 eff = rch_ or 1
@@ -1000,24 +1033,30 @@ def m_bank( ctx ):
                         continue
                     overlap = addr_ < base_ + len_
                     same = addr_ // 10000 == base_ // 10000
+                    if not overlap and not same and bank_( addr_ ) == bank_( base_ + len_ - 1 ):
+                        continue			# another 10000-block of the SAME bank ( Holding 40001-99999 ): the property leaves it open
                     want = overlap or ( same and addr_ < base_ + len_ + eff )
-                    got = try_fold( t, { B: base_, L: len_, A: addr_, C: 1, RCH: rch_ }, default=NoFold )
-                    if got is NoFold:
-                        raise AnalysisError( 'merge: merge condition cannot be evaluated: %s' % norm_text( t ))
-                    cells += 1
-                    if bool( got ) != want:
-                        bad_cells += 1
-                        if first_bad is None:
-                            first_bad = ( base_, len_, addr_, rch_, bool( got ), want, overlap, same )
+                    for lim_ in ( None, 5 ):		# the transfer limit splits what is emitted; it has no say in what merges
+                        env_ = { B: base_, L: len_, A: addr_, C: 1, RCH: rch_ }
+                        if 'limit' in RP:
+                            env_['limit'] = lim_
+                        got = try_fold( t, env_, default=NoFold )
+                        if got is NoFold:
+                            raise AnalysisError( 'merge: merge condition cannot be evaluated: %s' % norm_text( t ))
+                        cells += 1
+                        if bool( got ) != want:
+                            bad_cells += 1
+                            if first_bad is None:
+                                first_bad = ( base_, len_, addr_, rch_, bool( got ), want, overlap, same )
     if first_bad is None:
-        res.ok( src, t, 'merge iff the next range begins inside the running one, or in the same 10000-block within reach ( %d cells ): %s' % ( cells, norm_text( t )))
+        res.ok( src, t0, 'merge iff the next range begins inside the running one, or in the same 10000-block within reach ( %d cells ): %s' % ( cells, norm_text( t0 )))
     else:
         b_, l_, a_, r_, g_, w_, ov_, sm_ = first_bad
         why = ( 'a range that begins inside the range being built must merge ( whatever its 10000-block ): else the output is no longer sorted and pairwise disjoint, registers are transferred twice' if ov_ and not g_
-                else 'ranges of different 10000-blocks ( register kinds ) must never be bridged by the reach' if g_ and not sm_
+                else 'ranges of different register banks must never be bridged by the reach' if g_ and not sm_
                 else 'ranges of one block within reach must merge' if w_ and not g_
                 else 'a gap of the reach or more must not be bridged: registers farther than reach from every requested one would be read' )
-        res.bad( src, t, 'merge condition: %s' % norm_text( t ), '%s ( %d of %d cells differ; e.g. running ( %d, %d ), next start %d, reach %r: merges=%s, expected %s )' % ( why, bad_cells, cells, b_, l_, a_, r_, g_, w_ ))
+        res.bad( src, t0, 'merge condition: %s' % norm_text( t0 ), '%s ( %d of %d cells differ; e.g. running ( %d, %d ), next start %d, reach %r: merges=%s, expected %s )' % ( why, bad_cells, cells, b_, l_, a_, r_, g_, w_ ))
     # ---- an EMPTY range ( count 0 ) requests no register and must not extend the running range: either it is skipped ahead of the merge
     # branch, or the merge condition is false for it
     lp_ = [ s_ for s_ in fn.body if isinstance( s_, ast.For ) and any( _merge_branch( fn, L ) is x_ for x_ in ast.walk( s_ )) ][0]
